@@ -910,6 +910,15 @@ def run_literals(ctx, n):
         prog = f';{txt}\n' if shift == 0 else f';({txt} >> {shift}) & {hex((1 << w) - 1)}\n'
         jobs.append({'mode': 'asm', 'w': w, 'src': prog, 'words': [1]})
         metas.append((w, txt, term, kind, shift))
+    # the decimal conversion limit: 4300 characters are converted, 4301 are refused with a lexing error
+    for nd, k in ((4300, 0), (4301, 3), (4300 + rng.randrange(2, 3000), 3)):
+        txt = str(rng.randrange(1, 10)) + ''.join(str(rng.randrange(10)) for _ in range(nd - 1))
+        if rng.random() < 0.5:
+            txt = '0' + txt[:-1]                          # leading zeros count
+        v = int(txt) if k == 0 else 0
+        shift = rng.randrange(0, 14000)
+        jobs.append({'mode': 'asm', 'w': 64, 'src': f';({txt} >> {shift}) & {hex((1 << 64) - 1)}\n', 'words': [1]})
+        metas.append((64, txt[:40] + f'...({nd} digits)', (k, [ord(ch) for ch in txt], [], v), 'dec-limit', shift))
     # the string-boundary probe: two string literals on one line
     probes = []
     for _ in range(ctx.n(4, 12)):
